@@ -104,6 +104,24 @@ func (b *bank) SendCoinsFromModuleToAccount(ctx sdk.Context, module string, rcpt
 	return nil
 }
 
+func (b *bank) clone() *bank {
+	n := &bank{module: b.module, bal: map[string]sdk.Int{}, short: b.short}
+	for k, v := range b.bal {
+		n.bal[k] = v
+	}
+	n.log = append([]xfer{}, b.log...)
+	return n
+}
+
+func (b *bank) restore(o *bank) {
+	b.module, b.short = o.module, o.short
+	b.bal = map[string]sdk.Int{}
+	for k, v := range o.bal {
+		b.bal[k] = v
+	}
+	b.log = append([]xfer{}, o.log...)
+}
+
 // ---------- environment ----------
 
 type env struct {
